@@ -22,6 +22,18 @@ class FuncInfo:
         self.node = node
         self.name = node.name
 
+    def normalized(self) -> 'FuncInfo':
+        """the same function with the statement-level normal forms of normalize.py applied (what the path executor
+        runs; the AST rules keep looking at the source as written)"""
+        n = getattr(self, '_norm', None)
+        if n is None:
+            from .normalize import normalized as _nz
+            n = FuncInfo(self.module, self.cls, _nz(self.node))
+            n._norm = n
+            n._orig = self
+            self._norm = n
+        return n
+
     @property
     def qualname(self) -> str:
         return (self.cls.name + '.' if self.cls else '') + self.name
